@@ -24,6 +24,26 @@ CHECKS = {
         note="Trusted: H1 live dump; layer 1 treats one client call as atomic. The at-most-once clause is exercised by duplicate (retried) calls here and by preemptive threads in part (b).",
         technique="deterministic simulation: seeded adversarial action matrix, before/after state comparison at quiescent points",
         ref="DESIGN.md §6 C05"),
+    "C04": dict(
+        text="Differential and metamorphic: generated models of the bounded grammar x valuation x three variants (declared / shuffled / reversed branch order, each under another scheduler policy, clock-tie rate, client mode and deploy path); every run is compared with the reference interpreter RefFlow (which nodes have task instances, their final states, ordering constraints evaluated on the H2 trace) and the variants with each other (outcome independent of declaration order and schedule). Sampling: evidence, not proof.",
+        note="Trusted: RefFlow (written from the statements; `either` where they are open: needs-branch whose needed sibling was skipped, and the else-branch beside it). Worker-thread counts are approximated by task-level interleavings (layer 1). Backward `next` jumps are not generated (DESIGN.md §10).",
+        technique="deterministic simulation: differential against a reference interpreter + metamorphic over branch order and schedules",
+        ref="DESIGN.md §6 C04"),
+    "C06": dict(
+        text="Seeded search over models with catches on acts and steps (nested, several codes, catch-all, empty, non-matching) x one error source (client error action at a seeded interrupt, throwing script, unknown package) x schedules; the oracle derives the catching task from the model and checks the propagation chain (states, original code and message), exactly-once execution of exactly the first matching catch's steps, completion of the catcher, continuation with its successor and the error/complete events. Sampling: evidence, not proof.",
+        note="Trusted: the harness's own model AST to find the catcher; H2 trace; H1 live dump for error fields. One error source per run.",
+        technique="deterministic simulation: seeded error injection through the client/script/package seam, model-derived oracle",
+        ref="DESIGN.md §6 C06"),
+    "C15": dict(
+        text="Seeded search over parent/child(/grandchild) models, child endings (completed, error, aborted, missing model) and interleavings of the child's return with other parent activity: the calling act is open at every quiescent point before the child's terminal event, closed exactly once afterwards with the prescribed state/data/error, the child's inputs equal the call's options, the successor starts once and only after the call is closed, the parent's terminal event is generated after the child's. Sampling: evidence, not proof.",
+        note="Trusted: H1 live dumps at quiescent points, id shim for event generation order. Child ending `skipped` is not reachable through client actions and is not generated.",
+        technique="deterministic simulation: seeded interleaving of sub-process return and parent activity, trace/dump oracle",
+        ref="DESIGN.md §6 C15"),
+    "C16": dict(
+        text="Seeded search over models with parallel/sequence/block acts over lists of length 0..5 (nested blocks), setup acts bound to all five hook kinds on workflow/step/act, and a push into an open step, under seeded answer orders and schedules; counting oracles over stream, trace and final live dump: one group per element with its own $index/$value, all-at-once vs in-order, generator completes last, hook firings = matching lifecycle events, one push = one act. Sampling: evidence, not proof.",
+        note="Trusted: H1/H2; the reading of `on: step` (fires when a step completes) and of before_update/updated (acts created/closed under the owner) stated in the evidence assumptions. Hooks are only counted for processes that finished.",
+        technique="deterministic simulation: seeded answer orders/schedules, counting oracle over stream and trace",
+        ref="DESIGN.md §6 C16"),
     "C08": dict(
         text="Seeded search over programs (control flow, catches, generated acts) x clients using all action kinds x dispatch interleavings (every message dispatch is an independently scheduled task): the complete stream of a match-all channel is checked against the H2 trace and live dumps for multiplicity per task, created-before-terminal and parent-before-child in generation order (id shim), completeness, field agreement, unique ids. Sampling: evidence, not proof.",
         note="Trusted: id shim sequence numbers as generation order; H2 trace for final states. Delivery order of independently dispatched messages is not constrained (the statement speaks of generation).",
